@@ -378,3 +378,180 @@ Proof.
   - specialize (IH s'). destruct (run s' tl); simpl in *. rewrite IH; auto.
   - exfalso. apply H. left; reflexivity.
 Qed.
+
+(* ---------------------------------------------------------------------------------------- *)
+(** * Panics need an inconsistent declaration state
+
+    [fn_closed F]: every function and global the typechecker knows has a table. Accepted
+    declarations establish it; the rejected declarations of F2 break it (see the replays above).
+    Under [fn_closed], a command that only USES declarations (set / union / expression actions,
+    check, rule) cannot reach the `self.functions[name]` panic of lib.rs:2700. *)
+
+Definition fn_closed (F : frame) : Prop :=
+  (forall n, has (funcs F) n = true -> has (tables F) n = true) /\
+  (forall n, has (globals F) n = true -> has (tables F) n = true).
+
+Section ExprInd.
+  Variable P : expr -> Prop.
+  Hypothesis Hv : forall n, P (EVar n).
+  Hypothesis Hi : P EInt.
+  Hypothesis Hs : P EStr.
+  Hypothesis Hc : forall f args, Forall P args -> P (ECall f args).
+  Hypothesis Hp : forall p args, Forall P args -> P (EPrim p args).
+  Fixpoint expr_ind' (e : expr) : P e :=
+    match e with
+    | EVar n => Hv n
+    | EInt => Hi
+    | EStr => Hs
+    | ECall f args =>
+        Hc f args ((fix go (l : list expr) : Forall P l :=
+                      match l with [] => Forall_nil P | a :: tl => Forall_cons a (expr_ind' a) (go tl) end) args)
+    | EPrim p args =>
+        Hp p args ((fix go (l : list expr) : Forall P l :=
+                      match l with [] => Forall_nil P | a :: tl => Forall_cons a (expr_ind' a) (go tl) end) args)
+    end.
+End ExprInd.
+
+Lemma tc_tables_ok : forall F, fn_closed F ->
+  forall e pat exp env r, tc F pat e exp env = inr r -> expr_tables_ok F e = true.
+Proof.
+  intros F [Hf Hg]. induction e as [n| | |f0 args IHargs|p args IHargs] using expr_ind'; intros pat exp env r H; simpl in *; auto.
+  - destruct (has (globals F) n) eqn:E; auto.
+  - destruct (lookup (funcs F) f0) as [sg|] eqn:E; [|discriminate].
+    assert (Hh : has (funcs F) f0 = true) by (unfold has; rewrite E; reflexivity).
+    rewrite (Hf _ Hh). simpl.
+    destruct (Nat.eqb (length args) (length (f_ins sg))) eqn:El; [|discriminate].
+    apply Nat.eqb_eq in El.
+    match type of H with match ?X with _ => _ end = _ => destruct X as [|env'] eqn:Eg; [discriminate|] end.
+    clear H. revert Eg El. generalize (f_ins sg) as ins. revert env env'.
+    induction IHargs as [|a tl Ha Htl IH]; intros env env' ins Eg El; [reflexivity|].
+    destruct ins as [|i ins]; [simpl in El; discriminate|].
+    simpl. destruct (tc F pat a (Some i) env) as [|[t env1]] eqn:Ea; [discriminate|].
+    rewrite (Ha _ _ _ _ Ea). simpl. eapply IH; [exact Eg|]. simpl in El. lia.
+  - destruct p; try discriminate;
+      (destruct (Nat.eqb (length args) 2); [|discriminate];
+       match type of H with match ?X with _ => _ end = _ => destruct X as [|env'] eqn:Eg; [discriminate|] end;
+       clear H; revert env env' Eg;
+       induction IHargs as [|a tl Ha Htl IH]; intros env env' Eg; [reflexivity|];
+       simpl; destruct (tc F pat a (Some s_i64) env) as [|[t env1]] eqn:Ea; [discriminate|];
+       rewrite (Ha _ _ _ _ Ea); simpl; eapply IH; exact Eg).
+Qed.
+
+Lemma tc_args_tables_ok : forall F, fn_closed F -> forall args pat ins env r,
+  length args = length ins -> tc_args F pat args ins env = inr r -> forallb (expr_tables_ok F) args = true.
+Proof.
+  intros F HF. induction args as [|a tl IH]; intros pat ins env r Hl H; [reflexivity|].
+  destruct ins as [|i ins]; [discriminate|]. simpl in *.
+  destruct (tc F pat a (Some i) env) as [|[t env1]] eqn:Ea; [discriminate|].
+  rewrite (tc_tables_ok F HF _ _ _ _ _ Ea). simpl. eapply IH; [|exact H]. lia.
+Qed.
+
+Lemma tc_fact_tables_ok : forall F, fn_closed F -> forall f env r,
+  tc_fact F f env = inr r -> fact_tables_ok F f = true.
+Proof.
+  intros F HF [a b|e] env r H; simpl in *.
+  - destruct (tc F true b None env) as [|[t env1]] eqn:Eb.
+    + destruct (tc F true a None env) as [|[t env1]] eqn:Ea; [discriminate|].
+      destruct (tc F true b (Some t) env1) as [|[? ?]] eqn:Eb2; [discriminate|].
+      rewrite (tc_tables_ok F HF _ _ _ _ _ Ea), (tc_tables_ok F HF _ _ _ _ _ Eb2). reflexivity.
+    + destruct (tc F true a (Some t) env1) as [|[? ?]] eqn:Ea; [discriminate|].
+      rewrite (tc_tables_ok F HF _ _ _ _ _ Ea), (tc_tables_ok F HF _ _ _ _ _ Eb). reflexivity.
+  - destruct (tc F true e None env) as [|[? ?]] eqn:Ee; [discriminate|].
+    apply (tc_tables_ok F HF _ _ _ _ _ Ee).
+Qed.
+
+Lemma tc_facts_tables_ok : forall F, fn_closed F -> forall fs env r,
+  tc_facts F fs env = inr r -> forallb (fact_tables_ok F) fs = true.
+Proof.
+  intros F HF. induction fs as [|f0 tl IH]; intros env r H; [reflexivity|]. simpl in *.
+  destruct (tc_fact F f0 env) as [|env1] eqn:E; [discriminate|].
+  rewrite (tc_fact_tables_ok F HF _ _ _ E). simpl. eapply IH; exact H.
+Qed.
+
+Lemma tc_action_tables_ok : forall F, fn_closed F -> forall rule a env r,
+  tc_action F rule a env = inr r -> action_tables_ok F a = true.
+Proof.
+  intros F HF rule a env r H. destruct a; simpl in *.
+  - destruct (tc F false e None env) as [|[t env1]] eqn:E; [discriminate|].
+    apply (tc_tables_ok F HF _ _ _ _ _ E).
+  - destruct (lookup (funcs F) f0) as [sg|] eqn:E; [|discriminate].
+    assert (Hh : has (funcs F) f0 = true) by (unfold has; rewrite E; reflexivity).
+    destruct HF as [Hf Hg]. rewrite (Hf _ Hh). simpl.
+    destruct (f_ctor sg); [discriminate|].
+    destruct (Nat.eqb (length args) (length (f_ins sg))) eqn:El; simpl in H; [|discriminate].
+    apply Nat.eqb_eq in El.
+    destruct (tc_args F false args (f_ins sg) env) as [|env1] eqn:Ea; [discriminate|].
+    destruct (tc F false v (Some (f_out sg)) env1) as [|[? ?]] eqn:Ev; [discriminate|].
+    rewrite (tc_args_tables_ok F (conj Hf Hg) _ _ _ _ _ El Ea), (tc_tables_ok F (conj Hf Hg) _ _ _ _ _ Ev).
+    reflexivity.
+  - destruct (tc F false a None env) as [|[t env1]] eqn:Ea; [discriminate|].
+    destruct (tc F false b (Some t) env1) as [|[? ?]] eqn:Eb; [discriminate|].
+    rewrite (tc_tables_ok F HF _ _ _ _ _ Ea), (tc_tables_ok F HF _ _ _ _ _ Eb). reflexivity.
+  - destruct (tc F false e None env) as [|[? ?]] eqn:E; [discriminate|].
+    apply (tc_tables_ok F HF _ _ _ _ _ E).
+Qed.
+
+Lemma tc_actions_tables_ok : forall F, fn_closed F -> forall rule acts env r,
+  tc_actions F rule acts env = inr r -> forallb (action_tables_ok F) acts = true.
+Proof.
+  intros F HF rule. induction acts as [|a tl IH]; intros env r H; [reflexivity|]. simpl in *.
+  destruct (tc_action F rule a env) as [|env1] eqn:E; [discriminate|].
+  rewrite (tc_action_tables_ok F HF _ _ _ _ E). simpl. eapply IH; exact H.
+Qed.
+
+Definition uses_only (c : cmd) : bool :=
+  match c with
+  | CRule _ _ _ _ | CCheck _ | CRun _ | CPush | CPop | CPrintSize _ => true
+  | CAct (ALet _ _) => false
+  | CAct _ => true
+  | _ => false
+  end.
+
+Lemma step_act : forall F st a, (forall x e, a <> ALet x e) ->
+  step (F, st) (CAct a) =
+  match tc_action F false a [] with
+  | inl e => ((F, st), RReject e)
+  | inr _ => if action_tables_ok F a then ((F, st), RAccept) else ((F, st), RPanic)
+  end.
+Proof.
+  intros F st a H. destruct a; [exfalso; eapply H; reflexivity| | |];
+    cbv beta iota zeta delta [step desugar tc_program_tagged tc_ncmd tag_err];
+    match goal with |- context [tc_action F false ?a []] => destruct (tc_action F false a []) end;
+    cbv beta iota zeta delta [shadow_program shadow_ncmd run_program run_ncmd];
+    try match goal with |- context [action_tables_ok F ?a] => destruct (action_tables_ok F a) end; reflexivity.
+Qed.
+
+Theorem no_panic_when_closed : forall F st c,
+  fn_closed F -> uses_only c = true -> snd (step (F, st) c) <> RPanic.
+Proof.
+  intros F st c HF Hu. destruct c; simpl in Hu; try discriminate.
+  - (* rule *)
+    unfold step; simpl.
+    destruct (tc_facts F body []) as [|env] eqn:Eb; simpl; [discriminate|].
+    destruct (tc_actions F true head env) as [|env'] eqn:Eh; simpl; [discriminate|].
+    destruct (existsb _ _); simpl; [discriminate|].
+    rewrite (tc_facts_tables_ok F HF _ _ _ Eb), (tc_actions_tables_ok F HF _ _ _ _ Eh). simpl.
+    destruct (rs_lookup _ _); [|discriminate]. destruct (memn _ _); discriminate.
+  - (* action *)
+    rewrite step_act; [|intros x e K; subst; discriminate].
+    destruct (tc_action F false a []) as [|env] eqn:E; [discriminate|].
+    rewrite (tc_action_tables_ok F HF _ _ _ _ E). discriminate.
+  - (* run *) unfold step; simpl. destruct (rs_lookup _ _); discriminate.
+  - (* check *)
+    unfold step; simpl.
+    destruct (tc_facts F fs []) as [|env] eqn:Eb; simpl; [discriminate|].
+    destruct (existsb _ _); simpl; [discriminate|].
+    rewrite (tc_facts_tables_ok F HF _ _ _ Eb). discriminate.
+  - (* pop *) unfold step; simpl. destruct st; discriminate.
+  - (* print-size *) unfold step; simpl. destruct (lookup (tables F) n) as [[|]|]; discriminate.
+Qed.
+
+(** an accepted function declaration keeps the state closed; the rejected one of F2 does not *)
+Lemma closed_init : fn_closed init_frame.
+Proof. split; intros n H; discriminate. Qed.
+
+Lemma f2_breaks_closed : exists s' e, step init w_bad_merge = (s', RReject e) /\ ~ fn_closed (fst s').
+Proof.
+  eexists; eexists; split; [vm_compute; reflexivity|].
+  intros [Hf _]. specialize (Hf f). simpl in Hf. discriminate Hf. reflexivity.
+Qed.
